@@ -91,7 +91,10 @@ func (l *varintLengthField) run(curOffset int, buf []byte) error {
 }
 
 func (l *varintLengthField) check(curOffset int, buf []byte) error {
-	if int64(curOffset-l.startOffset-l.reserveLength()) != l.length {
+	// the field occupies the bytes that were actually read; for an overlong (non-canonical)
+	// varint that is more than reserveLength(), the size of the shortest encoding
+	_, fieldSize := binary.Varint(buf[l.startOffset:])
+	if fieldSize <= 0 || int64(curOffset-l.startOffset-fieldSize) != l.length {
 		return PacketDecodingError{"length field invalid"}
 	}
 
